@@ -74,6 +74,15 @@ pub struct Case {
     pub tasks: u8,
     /// one list per waking thread
     pub threads: Vec<Vec<WakeOp>>,
+    /// external loop only: one `poll_with(0)` before `execute` arms the io_uring notifier.  Always true in
+    /// generated cases (known finding C03/lost-wake/external-loop-notifier-unarmed); false only in
+    /// its regression case
+    #[serde(default = "yes")]
+    pub prearm: bool,
+}
+
+fn yes() -> bool {
+    true
 }
 
 const QUEUES: [usize; 4] = [1, 2, 3, 64];
@@ -83,7 +92,7 @@ fn strategy() -> impl Strategy<Value = Case> + Clone {
     let spin = prop_oneof![3 => Just(0u16), 3 => 1u16..30, 3 => 30u16..600, 1 => 600u16..3000];
     let op = (any::<u16>(), prop_oneof![3 => Just(true), 2 => Just(false)], spin, how).prop_map(|(target, settle, spin_us, how)| WakeOp { target, settle, spin_us, how });
     (prop_oneof![Just(Mode::Native), Just(Mode::CompatTokio)], any::<bool>(), any::<u16>(), 0u8..=3, vec(vec(op, 1..6), 1..=4))
-        .prop_map(|(mode, iour, queue, tasks, threads)| Case { mode, iour, queue, tasks, threads })
+        .prop_map(|(mode, iour, queue, tasks, threads)| Case { mode, iour, queue, tasks, threads, prearm: true })
         .sboxed()
 }
 
@@ -147,7 +156,7 @@ impl Future for Observe {
 
 /// ≥ 20x the slowest case seen on the loaded machine (cases take milliseconds); a hit is judged by
 /// the rescue rule, never by itself
-const WATCHDOG: Duration = Duration::from_secs(12);
+const WATCHDOG: Duration = Duration::from_secs(30);
 const RESCUE: Duration = Duration::from_secs(3);
 
 fn busy_wait(us: u64) {
@@ -167,6 +176,10 @@ struct ThreadStats {
 }
 
 fn run(case: &Case) -> Outcome {
+    run_inner(case, true)
+}
+
+fn run_inner(case: &Case, allow_control: bool) -> Outcome {
     let ntargets = 1 + case.tasks as usize;
     let mut totals = vec![0u64; ntargets];
     for t in &case.threads {
@@ -185,6 +198,13 @@ fn run(case: &Case) -> Outcome {
         force_done: AtomicBool::new(false),
     });
 
+    // ---- rescue channel: an unrelated descriptor the runtime waits on in a detached task; a byte written to
+    // its peer makes the kernel complete that operation, which returns the driver from its blocking call no
+    // matter what happened to the wake notification
+    let (rescue_rt, rescue_harness) = match std::os::unix::net::UnixStream::pair() {
+        Ok(p) => p,
+        Err(e) => return Outcome::inconclusive(format!("socketpair: {e}")),
+    };
     // ---- runtime thread
     let (done_tx, done_rx) = mpsc::channel::<Result<(), String>>();
     let sh_rt = sh.clone();
@@ -199,6 +219,12 @@ fn run(case: &Case) -> Outcome {
                 let sh = sh_rt.clone();
                 let ntasks = c.tasks as usize;
                 let main = async move {
+                    if let Ok(fd) = compio_runtime::fd::PollFd::new(rescue_rt) {
+                        compio_runtime::spawn(async move {
+                            let _ = fd.read_ready().await;
+                        })
+                        .detach();
+                    }
                     let handles: Vec<_> = (1..=ntasks).map(|ix| compio_runtime::spawn(Observe { sh: sh.clone(), ix })).collect();
                     Observe { sh: sh.clone(), ix: 0 }.await;
                     for h in handles {
@@ -210,6 +236,10 @@ fn run(case: &Case) -> Outcome {
                         rt.block_on(main);
                     }
                     Mode::CompatTokio => {
+                        if c.prearm {
+                            // semantically a no-op: nothing is submitted, nothing can complete
+                            rt.poll_with(Some(Duration::ZERO));
+                        }
                         let trt = tokio::runtime::Builder::new_current_thread().enable_all().build().map_err(|e| format!("tokio build: {e}"))?;
                         trt.block_on(async move {
                             let compat = compio_compat::RuntimeCompat::<compio_compat::TokioAdapter>::new(rt).map_err(|e| format!("compat: {e}"))?;
@@ -357,6 +387,22 @@ fn run(case: &Case) -> Outcome {
                     }
                     std::thread::sleep(Duration::from_millis(2));
                 }
+                // stage 2: an unrelated I/O completion (equally redundant if the wake had been delivered)
+                let mut rescued_by_io = false;
+                if !rescued {
+                    use std::io::Write;
+                    let _ = (&rescue_harness).write(&[1]);
+                    let s = Instant::now();
+                    while s.elapsed() < RESCUE {
+                        let t = &sh.targets[i];
+                        if t.seen.load(SeqCst) >= t.posted.load(SeqCst) {
+                            rescued_by_io = true;
+                            break;
+                        }
+                        std::thread::sleep(Duration::from_millis(2));
+                    }
+                }
+                let known_shape = case.mode == Mode::CompatTokio && case.iour && !case.prearm;
                 if rescued {
                     Outcome::violation(
                         format!("C03/real/{sig_mode}/lost-wake/{}", if i == 0 { "main-future" } else { "spawned-task" }),
@@ -365,6 +411,29 @@ fn run(case: &Case) -> Outcome {
                             snapshot.join("; ")
                         ),
                     )
+                } else if rescued_by_io && !known_shape {
+                    Outcome::violation(
+                        format!("C03/real/{sig_mode}/wake-not-delivered-until-unrelated-io/{}", if i == 0 { "main-future" } else { "spawned-task" }),
+                        format!(
+                            "an event was posted and wake() returned, the runtime stayed blocked for {WATCHDOG:?}, a redundant wake did not reach it either; the completion of an unrelated descriptor made it observe the event. {}",
+                            snapshot.join("; ")
+                        ),
+                    )
+                } else if allow_control && case.mode == Mode::CompatTokio && case.iour && !case.prearm {
+                    // differential control for the known shape: the same case with the notifier armed by one
+                    // redundant poll before execute().  If that runs to completion the hang is the unarmed notifier.
+                    let mut control = case.clone();
+                    control.prearm = true;
+                    match run_inner(&control, false) {
+                        Outcome::Pass { .. } => Outcome::violation(
+                            "C03/lost-wake/external-loop-notifier-unarmed",
+                            format!(
+                                "RuntimeCompat<TokioAdapter>::execute on a fresh io_uring runtime: wake() returned, the external loop never polled again and a redundant wake does not reach it either; the same case completes when one poll_with(0) precedes execute(). {}",
+                                snapshot.join("; ")
+                            ),
+                        ),
+                        _ => Outcome::inconclusive(format!("watchdog, the redundant wake did not help, control run did not pass either ({})", snapshot.join("; "))),
+                    }
                 } else {
                     Outcome::inconclusive(format!("watchdog, the redundant wake did not help ({})", snapshot.join("; ")))
                 }
@@ -376,13 +445,27 @@ fn run(case: &Case) -> Outcome {
     // ---- teardown: no thread outlives the case
     sh.abort.store(true, SeqCst);
     let mut stats = ThreadStats::default();
+    let mut stuck_wakers = 0;
     for w in wakers {
+        // a thread that spins inside wake() on a full queue of a runtime that never drains cannot be joined
+        let s = Instant::now();
+        while !w.is_finished() && (verdict.is_ok() || s.elapsed() < RESCUE) {
+            std::thread::sleep(Duration::from_millis(1));
+        }
+        if !w.is_finished() {
+            stuck_wakers += 1;
+            continue;
+        }
         if let Ok(s) = w.join() {
             stats.wakes += s.wakes;
             stats.while_idle += s.while_idle;
             stats.near_poll_end += s.near_poll_end;
         }
     }
+    let verdict = match verdict {
+        Err(Outcome::Inconclusive { why }) if stuck_wakers > 0 => Err(Outcome::inconclusive(format!("{why}; {stuck_wakers} waking thread(s) never returned from wake()"))),
+        v => v,
+    };
     if verdict.is_err() {
         sh.force_done.store(true, SeqCst);
         let s = Instant::now();
@@ -396,7 +479,7 @@ fn run(case: &Case) -> Outcome {
                 let _ = rt_thread.join();
                 break;
             }
-            if s.elapsed() > WATCHDOG {
+            if s.elapsed() > RESCUE {
                 // a runtime that cannot be woken at all: leave the thread behind (reported by the verdict)
                 break;
             }
@@ -448,7 +531,7 @@ fn main() {
          when no target had been polled for >= 200 us (main future Pending, nothing else to do: the runtime thread was inside its \
          blocking driver poll / tokio was waiting on the driver descriptor).",
     );
-    p.quick_cases = 600;
+    p.quick_cases = 400;
     p.thorough_cases = 12_000;
     p.threads = 2;
     p.replay_repeats = 25;
@@ -456,20 +539,25 @@ fn main() {
     let op = |target, settle, spin_us, how| WakeOp { target, settle, spin_us, how };
     p.regressions = vec![
         (
+            // known finding: external loop on io_uring, notifier not armed before the first wait
+            "known-external-loop-notifier-unarmed",
+            Case { mode: Mode::CompatTokio, iour: true, queue: 65535, tasks: 0, threads: vec![vec![op(0, true, 300, How::ByRef)]], prearm: false },
+        ),
+        (
             "blocked-then-woken-native-iour",
-            Case { mode: Mode::Native, iour: true, queue: 0, tasks: 2, threads: vec![vec![op(0, true, 800, How::ByRef), op(30000, true, 800, How::ByValue), op(65535, true, 0, How::Twice)], vec![op(65535, false, 0, How::ByRef); 5]] },
+            Case { mode: Mode::Native, iour: true, queue: 0, tasks: 2, threads: vec![vec![op(0, true, 800, How::ByRef), op(30000, true, 800, How::ByValue), op(65535, true, 0, How::Twice)], vec![op(65535, false, 0, How::ByRef); 5]], prearm: true },
         ),
         (
             "blocked-then-woken-native-poll",
-            Case { mode: Mode::Native, iour: false, queue: 0, tasks: 2, threads: vec![vec![op(0, true, 800, How::ByRef), op(30000, true, 800, How::ByValue), op(65535, true, 0, How::Twice)], vec![op(65535, false, 0, How::ByRef); 5]] },
+            Case { mode: Mode::Native, iour: false, queue: 0, tasks: 2, threads: vec![vec![op(0, true, 800, How::ByRef), op(30000, true, 800, How::ByValue), op(65535, true, 0, How::Twice)], vec![op(65535, false, 0, How::ByRef); 5]], prearm: true },
         ),
         (
             "blocked-then-woken-compat-iour",
-            Case { mode: Mode::CompatTokio, iour: true, queue: 0, tasks: 1, threads: vec![vec![op(0, true, 800, How::ByRef), op(65535, true, 500, How::ByRef), op(0, true, 0, How::CloneDrop)], vec![op(0, false, 3, How::ByRef); 4]] },
+            Case { mode: Mode::CompatTokio, iour: true, queue: 0, tasks: 1, threads: vec![vec![op(0, true, 800, How::ByRef), op(65535, true, 500, How::ByRef), op(0, true, 0, How::CloneDrop)], vec![op(0, false, 3, How::ByRef); 4]], prearm: true },
         ),
         (
             "blocked-then-woken-compat-poll",
-            Case { mode: Mode::CompatTokio, iour: false, queue: 0, tasks: 1, threads: vec![vec![op(0, true, 800, How::ByRef), op(65535, true, 500, How::ByRef), op(0, true, 0, How::CloneDrop)], vec![op(0, false, 3, How::ByRef); 4]] },
+            Case { mode: Mode::CompatTokio, iour: false, queue: 0, tasks: 1, threads: vec![vec![op(0, true, 800, How::ByRef), op(65535, true, 500, How::ByRef), op(0, true, 0, How::CloneDrop)], vec![op(0, false, 3, How::ByRef); 4]], prearm: true },
         ),
     ];
     p.assumptions = vec![
